@@ -14,6 +14,41 @@ STRICT = (' After the main batch a further eighth of the run indexes is '
           'replay file written there re-executes itself under that '
           'configuration.')
 
+# what the third session added to each workload (DESIGN.md section 4, "As
+# built (third session)", and the fault catalogue in 3.4)
+EXTRA = {
+    'C01': 'Also: sessions that state an expected_format, long streams '
+    'around the size constants of the module under test, stalled sources '
+    '(thousands of empty chunks in a row), producers that reuse and scrub '
+    'one buffer (memoryview / bytearray chunks), inspectors built with '
+    'tracing=True.',
+    'C02': 'Also: generated extent path names, reused producer buffers, '
+    'tracing=True inspectors, a CLI whose stdout reader has gone (EPIPE); '
+    'path-taking routes are handed a real file, the open() seam adds short '
+    'reads and EIO where the tree opens files through it.',
+    'C03': 'Also: format names as str subclasses / enum members, other '
+    'collection types, a caller that edits the list formats returned or the '
+    'collection it passed, reused producer buffers.',
+    'C05': 'Also: tracing=True inspectors and reused producer buffers.',
+    'C06': 'Also: the recorded history is keyed by source chunk (a wrapper '
+    'may feed inspectors in pieces or skip empty chunks), long streams '
+    'around the module\'s size constants, argument shapes, reused producer '
+    'buffers.',
+    'C07': 'Also: queries in mid-stream, reused producer buffers, '
+    'tracing=True, descriptors with CRLF / odd extent lines.',
+    'C09': 'Also: symlink / dangling-link / loop paths, a falsy logger, one '
+    'context object serving two handlers, a filter host that is a copy of '
+    'a prototype.',
+    'C12': 'Also: overrides in named zones (advances only where wall-clock '
+    'and exact arithmetic agree), utcnow(with_timezone=True), margins '
+    'beyond the representable range.',
+    'C13': 'Also: watches that are copied / pickled (and forks: copy and '
+    'original both in use), two watches at once, a clock read that raises, '
+    'integer (2^60) and Fraction clocks, deadlines beyond 2^53.',
+    'C20': 'Also: failures that are not OSErrors, every algorithm in '
+    'hashlib.algorithms_available.',
+}
+
 CLAIMED = {
     'C01': dict(
         level='exploration', ref='DESIGN.md section 4 C01',
@@ -288,7 +323,8 @@ def main():
             'replay_cmd_template': './check %s --replay {path}' % pid,
             'engine': 'oslo-dst',
             'level_claimed': {'category': c['level'],
-                              'text': c['text'] + STRICT,
+                              'text': c['text'] + ' ' + EXTRA.get(pid, '') +
+                              STRICT,
                               'design_ref': c['ref']},
             'level_note': c['note'],
             'technique': c['technique'],
